@@ -24,7 +24,7 @@ RULE = ("families {daily current/legacy, billing, hourly} x baseline datasets (n
 ASSUMPTIONS = ["when several refusal reasons hold at once (e.g. disqualified and foreign timezone) any raised exception counts as refusal",
                "a model 'carries a disqualification' when model.disqualification is non-empty"]
 REQUIRED_REACH = {"event.fit": 24, "event.predict": 200, "gate.fit_refused": 6, "gate.fit_overridden": 6, "gate.predict_refused_dq": 10,
-                  "gate.predict_overridden": 10, "gate.predict_refused_foreign": 40, "gate.stored_model_events": 60, "gate.poor_fit_model": 2, "gate.poor_fit_rule_judged": 3, "gate.model_object_refitted": 6, "gate.poor_fit_with_an_undefined_metric": 1,
+                  "gate.predict_overridden": 10, "gate.predict_refused_foreign": 40, "gate.stored_model_events": 60, "gate.poor_fit_model": 2, "gate.poor_fit_rule_judged": 3, "gate.model_object_refitted": 6, "gate.subclass_related_foreign_type": 4, "gate.poor_fit_with_an_undefined_metric": 1,
                   "gate.unfitted": 6, "stored.disqualification_kind:missing_monthly_temperature_data": 1, "stored.disqualification_kind:incorrect_number_of_total_days": 1}
 
 VIOL = []
@@ -204,6 +204,15 @@ def run_case(spec):
     }
     if fam.kind == "billing":
         inputs["daily-data-of-same-shape"] = (em.DailyReportingData(rep_df.copy(), is_electricity_data=True), True, "same")
+    if fam.kind == "daily":
+        # the billing classes derive from the daily ones: a foreign type all the same (same zone, same columns)
+        bfam = FT.Family("billing")
+        try:
+            inputs["billing-reporting-data-of-the-same-zone"] = (bfam.reporting_data(bfam.reporting_frame(rng, tz, "2019-03-01", 90)), True, "same")
+            inputs["billing-baseline-data-of-the-same-zone"] = (bfam.baseline_data(bfam.baseline_frame(rng, tz=tz, days=365)), True, "same")
+            I.reach("gate.subclass_related_foreign_type")
+        except Exception:
+            pass
     variants = {"as-fitted": m}
     try:
         variants["stored"] = fam.from_json(m.to_json())
